@@ -148,7 +148,12 @@ def gen_case(rng, kind, nops, alias=0.25, valid=True, mixed=False, collide=False
         elif r < 0.57:
             i = rng.choice([0, max(n - 1, 0), rng.randrange(max(n, 1))]) if valid else rng.randrange(n + 2)
             how = rng.random()
-            if how < 0.25 and (n > 0 or not valid):
+            if (k == 'array' and how > (0.82 if valid else 0.7)) or (not valid and how > 0.93):
+                # round 6: Array::remove(index) with an index that is not in the array (accepted; nothing happens)
+                ops.append('remout %d %d' % (x, rng.choice([n, n, n, n + 1, n + rng.randrange(1, 300), 255, 256, 65536, 1 << 31, 1 << 32,
+                                                            (1 << 63) - 1, 1 << 63, (1 << 64) - 1, (1 << 64) - 1 - n]
+                                                           + ([] if valid else [max(n - 1, 0), 0]))))
+            elif how < 0.25 and (n > 0 or not valid):
                 ops.append('rempop %d %s' % (x, rng.choice('fb')))     # removeFront() / removeBack()
                 if n > 0:
                     pic.size[x] -= 1
@@ -251,6 +256,45 @@ def boundary_cases(thorough):
         cases.append(['new 0 array'] + fill('array', 0, n) + ['asg 0 0', 'copy 1 0', 'asg 1 1', 'asg 0 1', 'swap 0 0', 'swap 0 1'])
         cases.append(['new 0 array'] + fill('array', 0, n) + ['new 1 array'] + fill('array', 1, 2, 50) +
                      ['ins 0 b - v1.0', 'addall 0 b 1', 'resize 1 %d v0.0' % (n + 2) if n else 'resize 1 3 7', 'asg 1 0', 'clear 0'])
+    return cases
+
+
+def remout_cases(thorough):
+    """round 6 - Array::remove(usize index) with size <= index: index == size, size + 1, far away, at the widths
+    of narrower integer types and at the top of usize; on arrays that never had storage, that are empty with
+    storage (fresh / stale slots), full to the capacity (n|3 == n), with raw spare slots, with a stale
+    (destroyed) object in the slot behind the last element; on a copy; the array is used on afterwards"""
+    cases = []
+    HUGE = [255, 256, 65535, 65536, (1 << 31) - 1, 1 << 31, (1 << 32) - 1, 1 << 32, (1 << 32) + 1, (1 << 63) - 1, 1 << 63, (1 << 64) - 2, (1 << 64) - 1]
+    top = 10 if thorough else 9
+    for n in range(0, top):
+        base = ['new 0 array'] + fill('array', 0, n)
+        own = 'ins 0 b - v0.%d' % (n - 1) if n else 'ins 0 b - 3'
+        tails = [[own, 'remat 0 0', 'remout 0 %d' % n, 'del 0'],
+                 ['remat 0 %d' % (n - 1) if n else 'clear 0', own if n > 1 else 'ins 0 b - 4', 'copy 1 0', 'del 0', 'remout 1 %d' % max(n, 1)],
+                 ['clear 0', 'remout 0 0', 'ins 0 b - 5']]
+        idx = [n, n + 1, 2 * n + 5] + ([(1 << 64) - 1 - n, (1 << 64) - n, (1 << 32) + n, 256 + n] if n else [])
+        for j, i in enumerate(idx):
+            cases.append(base + ['remout 0 %d' % i] + tails[j % len(tails)])
+        # the slot behind the last element holds a destroyed object / is raw spare storage / does not exist
+        cases.append(base + ['ins 0 b - 77', 'rempop 0 b', 'remout 0 %d' % n, 'remout 0 %d' % n, own, 'del 0'])
+        cases.append(base + ['reserve 0 %d' % (n + 3), 'remout 0 %d' % n, 'remout 0 %d' % (n + 1), own, 'remout 0 %d' % (n + 1), 'clear 0', 'remout 0 0', 'del 0'])
+        cases.append(base + ['resize 0 %d 6' % (n | 3), 'remout 0 %d' % (n | 3), 'ins 0 b - v0.0', 'remout 0 %d' % ((n | 3) + 1)])
+        if n:
+            cases.append(base + ['remat 0 0', 'remout 0 %d' % (n - 1), 'remout 0 %d' % n, 'rematit 0 0' if n > 1 else 'ins 0 b - 1', 'remout 0 %d' % (n - 1), 'asg 0 0', 'del 0'])
+            cases.append(base + ['copy 1 0', 'remout 1 %d' % n, 'asg 0 1', 'remout 0 %d' % n, 'swap 0 1', 'remout 1 %d' % (n + 2), 'addall 0 b 1', 'remout 0 %d' % (2 * n), 'del 1', 'del 0'])
+            cases.append(base + ['clear 0', 'remout 0 0', 'remout 0 %d' % n, 'ins 0 b - 1', 'remout 0 1', 'del 0'])
+            cases.append(base + ['resize 0 %d 1' % (n - 1), 'remout 0 %d' % (n - 1), 'remout 0 %d' % n, own if n > 1 else 'ins 0 b - 2'])
+    for h in HUGE:
+        for n in (0, 1, 3, 4):
+            cases.append(['new 0 array'] + fill('array', 0, n) + ['remout 0 %d' % h, 'ins 0 b - v0.0' if n else 'ins 0 b - 2', 'remout 0 %d' % h, 'del 0'])
+    for c in (0, 1, 2, 4):
+        cases.append(['newcap 0 array %d' % c, 'remout 0 0', 'remout 0 1', 'remout 0 %d' % c, 'ins 0 b - 1', 'remout 0 1', 'remout 0 %d' % max(c, 1), 'del 0'])
+    # not an array / a dead variable / an index that IS in the array: not this call
+    for kind in KINDS:
+        if kind != 'array':
+            cases.append(['new 0 %s' % kind] + fill(kind, 0, 2) + ['remout 0 2', 'remout 0 5', 'remat 0 1', 'remout 0 1'])
+    cases.append(['new 0 array'] + fill('array', 0, 3) + ['remout 0 2', 'remout 0 0', 'remout 1 0', 'remout 0 3', 'del 0', 'remout 0 0'])
     return cases
 
 
@@ -585,7 +629,7 @@ def exhaustive_cases(kind, depth):
         # round 5: prepend / append with the container's own key / value
         alpha += ['insw 0 %s %s %s' % (WRAP[kind][0], 'k0.0' if kind in HAS_KEY else '-', 'v0.0' if kind in NEED_VAL else '-')]
     if kind == 'array':
-        alpha += ['resize 0 5 v0.0', 'reserve 0 4', 'apprange 0 0 0 2', 'rematit 0 1']
+        alpha += ['resize 0 5 v0.0', 'reserve 0 4', 'apprange 0 0 0 2', 'rematit 0 1', 'remout 0 1', 'remout 0 0']
     if kind == 'hashset':
         alpha += ['remall 0 0', 'remall 0 1']
     if kind not in COPYABLE:
@@ -713,6 +757,12 @@ class C04(Check):
         'to the world what insert(key, value) does (same events in the same order, same instances and allocations), only the place '
         'of the new node differs. stored_instances_counted: between operations the live instances are one per stored element and '
         'per stored key (sstored, the number the spec oracle prints) plus what the containers keep for themselves (sbase). '
+        'Round 6 - one more operation, covered by all theorems: ORemOut x i r, Array::remove(usize index) with size <= index (i is any '
+        'usize, a binary N), the one removal by index or position that the containers accept although it names no element. The '
+        'lifecycle theorems quantify over histories that contain it; what the array holds afterwards is left open by the spec as far '
+        'as "at most one element is removed" (outcome r: None, or Some j = element j is removed; an input like the tie offset); '
+        'remove_out_of_range: with the outcome of the code as it is (r = None) world, event log and variables are unchanged - nothing is '
+        'destroyed, released or touched -, an outcome Some j is remove(j) in model and spec. '
         'The model is tied to the code by running the extracted '
         'model, the extracted spec and an ASan/UBSan build of the working tree on the same histories with an element type that owns a heap '
         'cell, remembers the ADDRESS it was constructed at (a bitwise-relocated instance is not a live one) and registers every '
@@ -745,7 +795,18 @@ class C04(Check):
         'hands that j to model and spec as an input of the operation (case files and replays keep the plain `inshint` line; the offset is '
         'taken afresh from every run of the implementation), the spec accepts only an offset that keeps the keys in order, and contents, '
         'events, instance ids and counts are compared as for every other operation. Which of the admissible offsets the tree produces is '
-        'C01\'s business and not checked here. The wrappers prepend / append(key[, value]) are driven through their own op (insw, '
+        'C01\'s business and not checked here. Array::remove(index) with an index that is not in the array (round 6, op `remout x i`, '
+        'i up to 2^64 - 1): the call is accepted by the code (a no-op), so the lifecycle clauses are judged across it - stored= (live '
+        'instances = one per element the containers report), bad= (nothing destroyed or read that is not a live element), sanitizer '
+        'reports, the leak check at the end -, while the resulting CONTENTS are not judged here (C03\'s text leaves them open): the '
+        'harness reports which element, if any, the call took out (` out=j`, model section; the largest j that explains the contents), '
+        'the check hands it to model and spec (`remout x i j`; case files and replays keep the plain line), so an array that clamps the '
+        'index and removes the last element properly (mutants/C03/A2-04) stays quiet, and one that drops the last element without '
+        'destroying it, or destroys the slot behind it (seeded/C04-v3 = seeded/C03-v1), is reported with a failing input. An array '
+        'that did more than remove one element there would be reported as a contents difference. The other removals by position are '
+        'NOT driven with the end position: Array::remove(end()), and remove(end()) / removeFront / removeBack on an empty List, '
+        'PoolList, Map, MultiMap, HashMap, HashSet, PoolMap dereference or unlink the end item on the unchanged tree (undefined there; '
+        'ops rematit / remat / rempop are not performed for them). The wrappers prepend / append(key[, value]) are driven through their own op (insw, '
         'OInsVia) whose model is the positional insert at the front / the back - PoolMap has no prepend, Map / MultiMap / Array / PoolList '
         'have none of them (not performed). Map::insert(const Map&): the hint (the iterator returned by the previous insertion) is found again in the model '
         'by looking up the previous key. find: modelled as liveness-checked reads of the argument and of all keys (the code stops at the '
@@ -767,7 +828,7 @@ class C04(Check):
         'own-element references / remove at index or iterator / Array::remove(Iterator) / removeFront / removeBack / remove key / add-all / '
         'remove-all / reserve / resize / Array::append(pointer into an array - mostly its own -, n) / (capacity) constructors / find / sort / '
         'hinted insert (incl. the MultiMap tie case) / PoolList::append(a1..an) / Array::append(foreign buffer, n) / prepend and append(key[, value]) '
-        'of List, HashMap, HashSet, PoolMap). Streams: corpus witnesses; random '
+        'of List, HashMap, HashSet, PoolMap / round 6: Array::remove(index) with size <= index). Streams: corpus witnesses; random '
         'mostly-valid histories per kind with 25% element-reference arguments and 40% self arguments; a malformed stream (dead variables, '
         'out-of-range indices and ranges, wrong-typed references, mixed kinds); random histories of the hash-table kinds with keys that share '
         'buckets (1, 501, 1001, 1501 / 2, 502 at 500 buckets); a collision stream (every insertion order of 3 (thorough: 4) colliding keys, '
@@ -789,7 +850,11 @@ class C04(Check):
         'keys behind 0 / 1 / 3 smaller and in front of 0 / 2 greater keys, built in three insertion orders = three tree shapes, every '
         'hint that meets the tie case, literal and own-element arguments, landing offsets 0..7 observed), a large stream (Array of 255 / '
         '257 (thorough: also 256) elements: own elements appended, removal at the last indices, resize and append(&a[i], n) across 2^8; '
-        'PoolMap (thorough: also HashSet, PoolList) with 257 items); exhaustive histories of depth 3 '
+        'PoolMap (thorough: also HashSet, PoolList) with 257 items); round 6: a remout stream (Array::remove(index) with index == size, '
+        'size + 1, 2 size + 5, 2^64 - size, 2^64 - 1 - size, 2^32 + size, 256 + size and 255 .. 2^64 - 1 for sizes 0..8 (thorough: 9): arrays '
+        'without storage, empty with storage, full to the capacity, with raw spare slots, with a destroyed object in the slot behind '
+        'the last element, copies, (capacity)-constructed ones; the array is used on afterwards; 18% of the removals of the random Array '
+        'histories and two letters of the exhaustive Array alphabet are such calls); exhaustive histories of depth 3 '
         '(thorough: depth 4) for every kind over a 13-21 op alphabet (table kinds: the two keys collide; the third-round ops are in the '
         'alphabets). A case is non-trivial when the '
         'implementation performed at least 4 operations and constructed at least 3 element instances; distinct = distinct op text.')
@@ -806,7 +871,9 @@ class C04(Check):
                    'the element type is address-sensitive: an instance counts as live only at the address it was constructed at, so a '
                    'container must move elements by copy construction + destruction (what the headers do), not bitwise',
                    'MultiMap hinted insert, tie case: the landing offset inside the run of equal keys is taken from the implementation\'s '
-                   'own run and is an input of model and spec (any offset that keeps the keys sorted is accepted)']
+                   'own run and is an input of model and spec (any offset that keeps the keys sorted is accepted)',
+                   'Array::remove(index) with size <= index: which element, if any, the call removed is taken from the implementation\'s own '
+                   'run (contents before / after) and is an input of model and spec; only "at most one element is removed" is assumed of the contents']
 
     def nontrivial(self, case, obs):
         oks = sum(1 for l in obs if l.startswith('ok'))
@@ -872,6 +939,14 @@ class C04(Check):
                     if m:
                         out = out or list(c)
                         out[k] = 'instie' + l[len('inshint'):] + ' ' + m.group(1)
+                elif l.startswith('remout ') and k < len(o) and len(l.split()) == 3:
+                    # round 6 - Array::remove(index), size <= index: WHAT the array holds afterwards is not this
+                    # property's business; the element the implementation took out (if any) is an input of model
+                    # and spec (`remout x i j`, Coq: ORemOut x i (Some j)); the lifecycle counters are judged
+                    m = re.search(r' out=(\d+)$', o[k])
+                    if m:
+                        out = out or list(c)
+                        out[k] = l + ' ' + m.group(1)
             key = '\n'.join(c)
             if out:
                 self._resolved[key] = out
@@ -937,6 +1012,7 @@ class C04(Check):
         out.append(Stream('large', large_cases(thorough), note='255 / 256 / 257 elements: Array growth, removal and append(&a[i], n) across 2^8; PoolMap (thorough: HashSet, PoolList) with 257 items'))
         out.append(Stream('emplace', emplace_cases(), note='PoolList::append with 0..8 arguments, integers or references to own elements'))
         out.append(Stream('capacity', capacity_cases(thorough), note='(capacity) constructors of Array / HashMap / HashSet / PoolMap'))
+        out.append(Stream('remout', remout_cases(thorough), note='Array::remove(index) with size <= index (== size, size + 1, far, 2^8 .. 2^64 - 1): empty / full / spare / stale slots, copies; lifecycle judged, contents open'))
         out.append(Stream('wrappers', wrapper_cases(thorough), note='prepend / append(key[, value]) of List / HashMap / HashSet / PoolMap with own keys and values as arguments'))
         if thorough:
             for k in KINDS:
